@@ -54,7 +54,11 @@ CHECKS = {
          "succeed: leftmost differing consumed item decides, ties to the first listed; loser's items become live conflicts), "
          "the value is one fork's value, and C07_exclusive: for ANY two parsers a, b, a line holding an item only a's "
          "consumers accept and one only b's accept cannot yield a value (from the success-only ledger theorem OkReach). "
-         "C07_many_order is partial: decided by the oracle (collected values vs command-line order)." + DIFF,
+         "C07_repeated_choice_in_line_order: `many` over a choice between two required flags with different names returns a list "
+         "whose values, read from the head, were taken from strictly increasing positions of the line, each value being the one of "
+         "the flag whose consumer took that position (ManyOrder.v: one round takes the leftmost available occurrence of either "
+         "and leaves the other fork's item available; ManyOrderList.v: induction over the loop, ghost log); for alternatives that "
+         "are not single flags the order is decided by the oracle (collected values vs command-line order)." + DIFF,
          "4/C07", "Rocq proof (pick rule + exclusivity from the ledger) over a hand-written model + differential correspondence + choice oracle"),
  "C08": ("proof", "Theorems in coq/Props/C08.v: take_cmd succeeds iff the first live item of the scope is the name (exact "
          "characterisation), the inner OptionParser then runs on [name..end) with the path extended and its value/failure is "
